@@ -2,3 +2,5 @@ import MinterModel.Bag
 import MinterModel.State
 import MinterModel.Parse
 import MinterModel.Ledger
+import MinterModel.Kernels
+import MinterModel.Tx
